@@ -32,6 +32,7 @@ const (
 	missingFace = uint64(99)
 	hintOut     = "/a/b/h" // delegation outside the producer region (LPM: /a/b, /a, /)
 	hintIn      = "/r/x"   // delegation inside the producer region /r
+	hintOut2    = "/c/h"   // a second delegation outside the region (LPM: /c, /)
 )
 
 var faceLabel = map[uint64]string{fwsim.L1: "L1", fwsim.N2: "N2", fwsim.N3: "N3", fwsim.N4: "N4", fwsim.L5: "L5", fwsim.A6: "A6", missingFace: "missing"}
@@ -113,9 +114,14 @@ var theRoutes = []struct {
 	face   uint64
 }{{"/", fwsim.N2}, {"/a", fwsim.N2}, {"/a", fwsim.N3}, {"/a/b", fwsim.N4}}
 
+// siblingRoute is a fifth optional route (absent / cost 1) under a SIBLING prefix of /a, installed
+// last: emptying and pruning /a must not disturb it (name-tree FIB pruning).
+var siblingRoute = fwsim.Route{Prefix: "/c", Face: fwsim.N4, Cost: 1}
+
 var slices = map[string]slice{
 	// FIB universes: every subset of {(/,N2),(/a,N2),(/a,N3),(/a/b,N4)} with costs from {1,2}
-	// (81 universes incl. equal-cost ties) as the first step, then Interests from a local and from
+	// (81 universes incl. equal-cost ties), each with and without the sibling route (/c,N4), as
+	// the first step, then Interests from a local and from
 	// a non-local face that is itself a next hop, Data, a clock step and FIB/strategy changes
 	"route": {
 		universes: true,
@@ -153,14 +159,28 @@ var slices = map[string]slice{
 			for _, hl := range []int{-1, 0, 1, 2} {
 				out = append(out, iOp{face: f, name: n, nonce: "fresh", hl: hl})
 			}
-			for _, h := range []string{"in", "out"} {
-				out = append(out, iOp{face: f, name: n, nonce: "fresh", hl: -1, hint: h})
-			}
+			out = append(out, iOp{face: f, name: n, nonce: "dup", hl: -1}, iOp{face: f, name: n, nonce: "dup", hl: 2})
 			return out
-		}), iOp{face: fwsim.L1, name: "/c", nonce: "fresh", hl: 1, hint: "out"}, iOp{face: fwsim.L1, name: "/c", nonce: "dup", hl: -1, hint: "out"}),
+		}), iOp{face: fwsim.L1, name: "/c", nonce: "fresh", hl: 1, hint: "out"}, iOp{face: fwsim.L1, name: "/a", nonce: "fresh", hl: 2, hint: "in"}),
 		dops: []dOp{{fwsim.N4, "/c", "none"}, {fwsim.N3, "/a", "none"}},
 		tops: []time.Duration{100 * time.Millisecond, 600 * time.Millisecond},
 		fops: []fOp{{kind: "rem", prefix: "/a/b", face: fwsim.N4}, {kind: "set", prefix: "/", strat: "other"}},
+	},
+	// forwarding hints: none, one delegation inside / outside the producer region /r, two
+	// delegations in both orders (outside then inside, inside then outside) and two outside ones;
+	// FIB routes make the lookup by name and the lookup by each delegation end on different faces
+	"hint": {
+		routes: []fwsim.Route{{Prefix: "/", Face: fwsim.N2, Cost: 1}, {Prefix: "/a", Face: fwsim.N3, Cost: 1}, {Prefix: "/a/b", Face: fwsim.N4, Cost: 1}, {Prefix: "/c/h", Face: fwsim.L5, Cost: 1}},
+		iops: append(prod([]uint64{fwsim.L1, fwsim.N3}, []string{"/a", "/c"}, func(f uint64, n string) []iOp {
+			out := []iOp{}
+			for _, h := range []string{"", "in", "out", "out+in", "in+out", "out+out2"} {
+				out = append(out, iOp{face: f, name: n, nonce: "fresh", hl: -1, hint: h})
+			}
+			return out
+		}), iOp{face: fwsim.L1, name: "/c", nonce: "dup", hl: -1, hint: "out"}, iOp{face: fwsim.N3, name: "/c", nonce: "dup", hl: -1, hint: "out+in"}, iOp{face: fwsim.L1, name: "/a", nonce: "dup", hl: -1}),
+		dops: []dOp{{fwsim.N4, "/c", "none"}, {fwsim.N3, "/a", "none"}},
+		tops: []time.Duration{100 * time.Millisecond, 600 * time.Millisecond},
+		fops: []fOp{{kind: "rem", prefix: "/a/b", face: fwsim.N4}},
 	},
 	// consumer-chosen next hop on a face with local fields (L1) and on one without (N3):
 	// NextHopFaceId naming N2, the arrival face itself, a face that does not exist
@@ -262,8 +282,8 @@ func build(cfgName string) explore.System {
 		s.allOps = append(s.allOps, explore.Op{Name: n})
 	}
 	if slc.universes {
-		// odometer over {absent, cost 1, cost 2}^4
-		for code := 0; code < 81; code++ {
+		// odometer over {absent, cost 1, cost 2}^4 x {sibling absent, present}
+		for code := 0; code < 162; code++ {
 			var rs []fwsim.Route
 			lab := []string{}
 			c := code
@@ -274,6 +294,10 @@ func build(cfgName string) explore.System {
 				if d > 0 {
 					rs = append(rs, fwsim.Route{Prefix: r.prefix, Face: r.face, Cost: uint64(d)})
 				}
+			}
+			lab = append(lab, strconv.Itoa(c))
+			if c == 1 {
+				rs = append(rs, siblingRoute)
 			}
 			add("U("+strings.Join(lab, "")+")", opDef{u: &uOp{routes: rs}})
 		}
@@ -417,12 +441,7 @@ func (s *sys) step(in *inst, op explore.Op) (v []report.Violation) {
 		if o.hl >= 0 {
 			is.HopLimit = fwsim.Uint(uint(o.hl))
 		}
-		switch o.hint {
-		case "in":
-			is.Hint = []string{hintIn}
-		case "out":
-			is.Hint = []string{hintOut}
-		}
+		is.Hint, _ = hintDelegations(o.hint)
 		var lp fwsim.LP
 		switch o.nh {
 		case "N2":
@@ -616,6 +635,8 @@ func configs(th bool) []explore.Config {
 		add("adhoc", "mc", "cs1", "ht", 5)
 		add("nonce", "br", "cs1", "ht", 5)
 		add("nonce", "mc", "cs0", "tree", 5)
+		add("hint", "br", "cs0", "tree", 5)
+		add("hint", "mc", "cs1", "ht", 5)
 		add("hop", "br", "cs0", "ht", 5)
 		add("hop", "mc", "cs1", "tree", 5)
 		add("route", "br", "cs0", "tree", 5)
@@ -628,6 +649,7 @@ func configs(th bool) []explore.Config {
 				add("nexthop", st, cs, fib, 8)
 				add("adhoc", st, cs, fib, 6)
 				add("nonce", st, cs, fib, 6)
+				add("hint", st, cs, fib, 5)
 				add("hop", st, cs, fib, 5)
 				add("route", st, cs, fib, 6)
 			}
@@ -654,12 +676,12 @@ func main() {
 			for _, c := range []struct {
 				cfg   string
 				depth int
-			}{{"nonce br cs0 tree", 3}, {"hop mc cs0 tree", 2}, {"nexthop br cs0 tree", 3}, {"adhoc mc cs0 tree", 3}} {
+			}{{"nonce br cs0 tree", 3}, {"hint mc cs0 tree", 2}, {"hop mc cs0 tree", 2}, {"nexthop br cs0 tree", 3}, {"adhoc mc cs0 tree", 3}} {
 				o[fmt.Sprintf("%s (all histories of length %d, before de-duplication)", c.cfg, c.depth)] = sweep(rep, c.cfg, c.depth)
 			}
 			cov["oracle_branches_exercised"] = o
 		},
-		Rule: "BFS over histories of Interest arrivals (names /a,/a/b,/c; nonce fresh|repeated|absent; hop limit absent|0|1|2; forwarding hint none|in-region|out-of-region; NextHopFaceId none|N2|self|missing on a face with and one without consumer-controlled forwarding; local, non-local and ad-hoc arrival faces), Data arrivals (by name, echoing a live token), clock steps 100/400/600 ms and 5 s, and FIB/strategy changes between packets (AddRoute, RemoveRoute, SetStrategy, UnsetStrategy) on one real fw.Thread with real PIT-CS, dead nonce list, FIB (tree / hash table) and strategies; FIB universes: all 81 subsets of {(/,N2),(/a,N2),(/a,N3),(/a/b,N4)} with costs {1,2} as first step of the route slice plus fixed FIBs with ties, a local and an ad-hoc next hop; every Interest SendPacket is compared with a three-valued reference (C02.nh/noback/best/first/drop/suppress/token); states de-duplicated on reference + white-box PIT-CS dump + FIB dump",
+		Rule: "BFS over histories of Interest arrivals (names /a,/a/b,/c; nonce fresh|repeated|absent; hop limit absent|0|1|2; forwarding hint none|in-region|out-of-region|(out,in)|(in,out)|(out,out'); NextHopFaceId none|N2|self|missing on a face with and one without consumer-controlled forwarding; local, non-local and ad-hoc arrival faces), Data arrivals (by name, echoing a live token), clock steps 100/400/600 ms and 5 s, and FIB/strategy changes between packets (AddRoute, RemoveRoute, SetStrategy, UnsetStrategy) on one real fw.Thread with real PIT-CS, dead nonce list, FIB (tree / hash table) and strategies; forwarding hints with two delegations in either order; FIB universes: all 81 subsets of {(/,N2),(/a,N2),(/a,N3),(/a/b,N4)} with costs {1,2}, each with and without a sibling route (/c,N4), as first step of the route slice plus fixed FIBs with ties, a local and an ad-hoc next hop; every Interest SendPacket is compared with a three-valued reference (C02.nh/noback/best/first/drop/suppress/token); states de-duplicated on reference + white-box PIT-CS dump + FIB dump",
 		Assumptions: []string{
 			"faces are simulated at the dispatch.Face seam (verif/harness/fwsim): a received frame becomes a defn.Pkt exactly as NDNLPLinkService.handleIncomingFrame + dispatchInterest/dispatchData build it; NextHopFaceId is honoured only on faces with local fields enabled; one forwarding thread (id 0)",
 			"'usable' is three-valued: a next hop equal to a point-to-point arrival face is unusable (C02.noback); a next hop that is the ad-hoc arrival face, that itself holds an in-record of the same PIT entry, or that is non-local while the decremented hop limit is 0, may or may not be used; every other next hop of the LPM entry must count as usable",
